@@ -1,11 +1,101 @@
 (* C15 - transient topic: each subscriber sees every item once, in order, then the end.
    Only statements; proofs are `exact <lemma of TT/TTProofs.v>`.  Reach progs s = "s is reachable from the
    initial state of client programs `progs` under SOME schedule" - so every theorem below is quantified over
-   all schedules, all programs (any number of publisher / consumer threads, any batch sizes, any number of
-   publish/close/clear cycles).  `misuse s = false`: no documented usage rule was broken on the way. *)
+   all schedules, all programs (any number of publisher / consumer threads, single and batch publishes, any
+   consume sizes, any number of publish/close/clear cycles).  `misuse s = false`: no documented usage rule
+   was broken on the way (publish after close, consume(0), consumer kept across clear(), clear() while
+   another thread is inside an operation).  `cepoch th = epoch s`: the thread's consumer was obtained from
+   subscribe() after the last clear().  items s = the values handed to publish/publish_n, in index order.
+
+   Gaps (see META["note"] in checks/c15.py): interleaving (SC) semantics - the fences are obligations on the
+   regenerated site table (c15_memory_order_obligations), the whole-algorithm weak-memory composition is not
+   mechanised; ConcurrentVector is an abstract unbounded array; liveness is "no reachable trap"
+   (c15_no_lost_wakeup + c15_unparked_threads_enabled), not termination under a fairness assumption. *)
 From Coq Require Import ZArith List Bool.
 Require Import Verif.Gen.Gen_topic Verif.Conc.Machine Verif.TT.TTModel Verif.TT.TTProofs.
 Import ListNotations.
+
+(* every consumer has received exactly the first `cursor` items of the publication-index order: each once,
+   in order, with the value the publisher passed *)
+Theorem c15_each_once_in_order : forall progs s th, Reach progs s -> misuse s = false -> In th (threads s) ->
+  cepoch th = epoch s -> received th = firstn (cursor th) (items s) /\ cursor th <= length (items s).
+Proof. exact tt_each_once_in_order. Qed.
+Print Assumptions c15_each_once_in_order.
+
+(* a slot whose status reads PUBLISHED holds the item of that index (the publisher's write is complete) *)
+Theorem c15_published_slot_holds_item : forall progs s j, Reach progs s -> misuse s = false ->
+  stat s j = PUBLISHED -> j < nei s /\ nth_error (items s) j = Some (valat s j).
+Proof. exact tt_published_slot_holds_item. Qed.
+Print Assumptions c15_published_slot_holds_item.
+
+(* a consumer walking at slot i has seen PUBLISHED on every slot before it (never skips, never runs ahead) *)
+Theorem c15_consumer_behind_published : forall progs s th i e b, Reach progs s -> misuse s = false -> In th (threads s) ->
+  cepoch th = epoch s -> cons_pos (tpc th) = Some (i, e, b) ->
+  b = cursor th /\ b <= i < e /\ e = b + req th /\ forall j, j < i -> stat s j = PUBLISHED.
+Proof. exact tt_consumer_behind_published. Qed.
+Print Assumptions c15_consumer_behind_published.
+
+(* the end marker is received only after close(), and only when every published item was delivered *)
+Theorem c15_end_after_all : forall progs s th, Reach progs s -> misuse s = false -> In th (threads s) ->
+  cepoch th = epoch s -> ended th = true ->
+  closed_at s = Some (cursor th) /\ cursor th = nei s /\ received th = items s.
+Proof. exact tt_end_after_all. Qed.
+Print Assumptions c15_end_after_all.
+
+(* consume(k) is about to hand out n < k items only if it stopped at the CLOSED slot and everything before
+   that slot was delivered: otherwise it blocks until k items are there *)
+Theorem c15_short_only_if_closed : forall progs s th b n sawc e, Reach progs s -> misuse s = false -> In th (threads s) ->
+  cepoch th = epoch s -> tpc th = CHand b n sawc e ->
+  e = b + req th /\ b = cursor th /\ (n < req th -> closed_at s = Some (b + n) /\ b + n = nei s).
+Proof. exact tt_short_only_if_closed. Qed.
+Print Assumptions c15_short_only_if_closed.
+
+(* concurrent publishers never share a slot *)
+Theorem c15_publishers_disjoint : forall progs s t1 t2 th1 th2 b1 e1 b2 e2, Reach progs s -> misuse s = false ->
+  nth_error (threads s) t1 = Some th1 -> nth_error (threads s) t2 = Some th2 -> t1 <> t2 ->
+  pub_range (tpc th1) = Some (b1, e1) -> pub_range (tpc th2) = Some (b2, e2) -> e1 <= b2 \/ e2 <= b1.
+Proof. exact tt_publishers_disjoint. Qed.
+Print Assumptions c15_publishers_disjoint.
+
+Theorem c15_publish_claims_its_items : forall progs s t th b e vals, Reach progs s -> misuse s = false ->
+  nth_error (threads s) t = Some th -> tpc th = PFill b e vals ->
+  e = b + length vals /\ e <= nei s /\ forall j, b <= j < e -> nth_error (items s) j = Some (nth (j - b) vals 0%Z).
+Proof. exact tt_publish_claims_fresh_range. Qed.
+Print Assumptions c15_publish_claims_its_items.
+
+(* after clear() the shared state is that of a new topic (and every theorem above keeps holding, being
+   invariants of all reachable states) *)
+Theorem c15_clear_is_new : forall s t th s', nth_error (threads s) t = Some th -> tpc th = Idle -> cur_op th = Some OClear ->
+  step s t = Some s' ->
+  nei s' = 0 /\ (forall j, stat s' j = INITIAL) /\ items s' = [] /\ closed_at s' = None /\ epoch s' = S (epoch s) /\
+  (misuse s' = false -> forall t' th', t' <> t -> nth_error (threads s) t' = Some th' -> tpc th' = Idle).
+Proof. exact tt_clear_is_new. Qed.
+Print Assumptions c15_clear_is_new.
+
+(* no lost wake-up: a consumer parked in futex_wait on slot i is registered (waiter bit set) on a slot whose
+   status is still INITIAL - nothing new is published there - or some publisher / closer is certain to issue
+   futex wake_all on that slot (it is past the waiter-bit test, or the bit it will test is set).  This covers
+   the consumer registering between the status store and the waker's load, and close() racing with the last
+   publish's wake-up. *)
+Theorem c15_no_lost_wakeup : forall progs s th i, Reach progs s -> misuse s = false -> In th (threads s) ->
+  blocked_on th = Some i -> lw_ok s i.
+Proof. exact tt_no_lost_wakeup. Qed.
+Print Assumptions c15_no_lost_wakeup.
+
+(* blocks only while nothing new is published: once no thread has a wake-up for slot i outstanding, a consumer
+   parked on i sits on a slot that is still INITIAL (so after close() has returned nobody is parked at or
+   before the CLOSED slot, and after a publish has returned nobody is parked on its slots) *)
+Theorem c15_parked_only_on_unpublished : forall progs s th i, Reach progs s -> misuse s = false -> In th (threads s) ->
+  blocked_on th = Some i -> (forall w, In w (threads s) -> will_wake (tpc w) i = false) ->
+  stat s i = INITIAL /\ waiter_bit s i = true.
+Proof. exact tt_parked_only_on_unpublished. Qed.
+Print Assumptions c15_parked_only_on_unpublished.
+
+(* the value handed to futex_wait always carries the waiter bit and status INITIAL *)
+Theorem c15_wait_value_has_waiter_bit : forall progs s th i e b v, Reach progs s -> misuse s = false -> In th (threads s) ->
+  tpc th = CWait i e b v -> (65536 <= v)%Z /\ status_of v = INITIAL.
+Proof. exact tt_wait_value_has_waiter_bit. Qed.
+Print Assumptions c15_wait_value_has_waiter_bit.
 
 (* every unfinished thread that is neither parked nor at a barrier can take a step (no other way to block) *)
 Theorem c15_unparked_threads_enabled : forall progs s t th, Reach progs s ->
@@ -14,7 +104,20 @@ Theorem c15_unparked_threads_enabled : forall progs s t th, Reach progs s ->
 Proof. exact tt_unparked_enabled. Qed.
 Print Assumptions c15_unparked_threads_enabled.
 
-(* the memory orders the argument relies on are the ones in the source (regenerated site tables) *)
+(* the memory orders the argument relies on are the ones in the source (regenerated site tables):
+   release fence between fill and status stores, seq_cst fence between status stores and the waiter-bit
+   loads (publish_n and close), acquire fence before the consumer hands out the range *)
 Theorem c15_memory_order_obligations : orders_ok = true.
 Proof. exact tt_orders_ok. Qed.
 Print Assumptions c15_memory_order_obligations.
+
+(* non-vacuity: a reachable state without misuse in which a consumer is parked while a wake-up is in flight, and
+   one in which a consumer has received everything followed by the end marker *)
+Example c15_reach_example :
+  exists s, Reach [[OPub [7%Z; 8%Z]; OClose]; [OLoop 1]; [OLoop 3]] s /\ misuse s = false /\
+            existsb parked (threads s) = true /\ wake_in_flight s 0 = true.
+Proof. exact tt_reach_example. Qed.
+Example c15_end_example :
+  exists s, Reach [[OPub [7%Z; 8%Z]; OClose]; [OLoop 3]] s /\ misuse s = false /\
+            map ended (threads s) = [false; true] /\ map received (threads s) = [[]; [7%Z; 8%Z]].
+Proof. exact tt_end_example. Qed.
